@@ -155,6 +155,7 @@ func checkC03(c *Check) {
 			}
 		}
 	}
+	c03BodyReader(c)
 	c03LMTPCommit(c)
 	c03FanOut(c)
 	c03CommitOrder(c)
@@ -1055,4 +1056,157 @@ func c03LMTPCommit(c *Check) {
 		}
 	}
 	c.Hold("R3b", "Commit:aborts-marked", rc.FI.Decl.Pos(), msg == "", msg)
+}
+
+
+// R8: the functions that turn the DATA / BDAT reader into the message buffer (the `buffer` directive's functions and
+// the buffer constructors they use) decide whether Body and Commit are reached at all. The library's data reader
+// reports a connection lost before the end-of-data marker, a cancelled BDAT and an oversized message as read errors –
+// the first of them as io.ErrUnexpectedEOF. A buffer function that answers a read error other than io.EOF with a
+// buffer hands a cut-off message to the targets, which commit it although the transaction failed.
+func c03BodyReader(c *Check) {
+	c.Rule("R8", "body buffering: a function from the message reader to a buffer returns a buffer only when every read of the reader ended with nil or io.EOF (evaluated in the world `err != nil, err != io.EOF`), and does not read through io.ReadFull / io.ReadAtLeast, whose io.ErrUnexpectedEOF cannot be told from the data reader's 'connection lost'", 3)
+	p := c.P
+	isReader := func(t types.Type) bool {
+		n := namedOf(t)
+		return n != nil && n.Obj().Pkg() != nil && n.Obj().Pkg().Path() == "io" && n.Obj().Name() == "Reader"
+	}
+	isBufferFn := func(sig *types.Signature) (int, bool) {
+		if sig == nil || sig.Results().Len() != 2 || !isErrorType(sig.Results().At(1).Type()) {
+			return 0, false
+		}
+		rn := namedOf(sig.Results().At(0).Type())
+		if rn == nil || rn.Obj().Pkg() == nil || rn.Obj().Pkg().Path() != modPath+"/framework/buffer" {
+			return 0, false
+		}
+		for i := 0; i < sig.Params().Len(); i++ {
+			if isReader(sig.Params().At(i).Type()) {
+				return i, true
+			}
+		}
+		return 0, false
+	}
+	n := 0
+	judge := func(fi *FuncInfo, name string, ft *ast.FuncType, body *ast.BlockStmt, sig *types.Signature) {
+		pi, ok := isBufferFn(sig)
+		if !ok || body == nil {
+			return
+		}
+		info := fi.Info()
+		// the reader parameter's object
+		var rd types.Object
+		k := 0
+		for _, fld := range ft.Params.List {
+			if len(fld.Names) == 0 {
+				k++
+				continue
+			}
+			for _, nm := range fld.Names {
+				if k == pi {
+					rd = info.Defs[nm]
+				}
+				k++
+			}
+		}
+		if rd == nil {
+			return
+		}
+		n++
+		c.SawFunc(fi.Name())
+		r := &RuleCtx{C: c, FI: fi, F: p.FlowOf(info, body, name), Info: info}
+		// readers derived from the parameter (bufio.NewReader(r), io.MultiReader(…, r), io.LimitReader(r, n))
+		derived := copyClosure(info, body, rd)
+		derived[rd] = true
+		ast.Inspect(body, func(x ast.Node) bool {
+			as, ok := x.(*ast.AssignStmt)
+			if !ok || len(as.Lhs) != 1 || len(as.Rhs) != 1 {
+				return true
+			}
+			for o := range derived {
+				if mentions(info, as.Rhs[0], o) && isReader(info.TypeOf(as.Rhs[0])) {
+					if lo := objOf(info, as.Lhs[0]); lo != nil {
+						derived[lo] = true
+					}
+				}
+			}
+			return true
+		})
+		usesReader := func(e ast.Node) bool {
+			for o := range derived {
+				if mentions(info, e, o) {
+					return true
+				}
+			}
+			return false
+		}
+		bad := ""
+		nReads := 0
+		for _, pt := range r.F.Points() {
+			nd := pt.Node()
+			if nd == nil {
+				continue
+			}
+			for _, call := range callsAt(nd) {
+				if !usesReader(call) {
+					continue
+				}
+				if isCall(info, call, "io.ReadFull", "io.ReadAtLeast") {
+					bad = "the message reader is read through " + exprStr(call.Fun) + ": its io.ErrUnexpectedEOF stands both for 'the message is shorter than the buffer' and for the data reader's 'connection lost before the end of the message'"
+					continue
+				}
+				eo := errVarAssigned(info, nd, call)
+				if eo == nil {
+					continue
+				}
+				nReads++
+				world := r.F.World(func(atom ast.Expr) (bool, bool) {
+					atom = ast.Unparen(atom)
+					if be, ok := atom.(*ast.BinaryExpr); ok && (be.Op == token.EQL || be.Op == token.NEQ) && objOf(info, be.X) == eo {
+						if isNilIdent(info, be.Y) {
+							return be.Op == token.NEQ, true
+						}
+						if sel, ok := ast.Unparen(be.Y).(*ast.SelectorExpr); ok && sel.Sel.Name == "EOF" {
+							if o := info.Uses[sel.Sel]; o != nil && o.Pkg() != nil && o.Pkg().Path() == "io" {
+								return be.Op == token.NEQ, true
+							}
+						}
+					}
+					if call, ok := atom.(*ast.CallExpr); ok && isCall(info, call, "errors.Is") && len(call.Args) == 2 && objOf(info, call.Args[0]) == eo {
+						if sel, ok := ast.Unparen(call.Args[1]).(*ast.SelectorExpr); ok && sel.Sel.Name == "EOF" {
+							return false, true
+						}
+					}
+					return false, false
+				})
+				redefined := func(q Pt) bool { return q != pt && q.Node() != nil && assignsObj(info, q.Node(), eo) }
+				if path, f := r.F.Reach(Query{From: []Pt{pt}, Target: r.IsSuccessReturn, Avoid: redefined, AvoidEdge: world}); f {
+					bad = "after " + exprStr(call.Fun) + " on the message reader failed with something other than io.EOF (connection lost, transfer cancelled, message too large) the function still returns a buffer: the cut-off message goes on to Body and Commit: " + r.F.Describe(path)
+				}
+			}
+		}
+		key := name
+		c.Hold("R8", key+":read-errors", body.Pos(), bad == "", bad)
+		_ = nReads
+	}
+	for _, rel := range []string{smtpEndpRel, "framework/buffer"} {
+		for _, fi := range funcsOfPkgs(p, rel) {
+			fi := fi
+			if sig, ok := fi.Obj.Type().(*types.Signature); ok {
+				judge(fi, fi.Name(), fi.Decl.Type, fi.Decl.Body, sig)
+			}
+			li := 0
+			ast.Inspect(fi.Decl.Body, func(x ast.Node) bool {
+				if fl, ok := x.(*ast.FuncLit); ok {
+					li++
+					if sig, ok := fi.Info().TypeOf(fl).(*types.Signature); ok {
+						judge(fi, fi.Name()+"$lit"+itoa(li), fl.Type, fl.Body, sig)
+					}
+				}
+				return true
+			})
+		}
+	}
+	if n < 3 {
+		c.Fail("R8", "buffer-functions", token.NoPos, "undecided: fewer than three functions from an io.Reader to a buffer.Buffer found (buffer.BufferInMemory, buffer.BufferInFile, the endpoint's auto mode)")
+	}
 }
